@@ -422,7 +422,7 @@ package s3db
 // leaves the bucket untouched only in that case.
 //@ func OpenKV
 //@   requires imp(inMemoryS3 != nil, inMemoryS3.Client != nil)
-//@   modifies puts, deletes, deleteFailures, lists, lastPutPrefix, lastPutName, lastPutOK, inMemoryS3, inMemoryBucket
+//@   modifies puts, deletes, deleteFailures, lists, listNext, listTruncated, listedKeys, lastPutPrefix, lastPutName, lastPutOK, inMemoryS3, inMemoryBucket
 //@   ensures readonly-no-write: imp(s3opts.ReadOnly, puts == old(puts) && deletes == old(deletes))
 //@   ensures named-no-list: imp(s3opts.OnlyVersions != nil, lists == old(lists))
 //@   ensures named-all-merged: forall j int :: imp(err == nil && s3opts.OnlyVersions != nil && 0 <= j && j < len(s3opts.OnlyVersions), has(result0.Root.mergedRoots, s3opts.OnlyVersions[j]))
@@ -462,7 +462,7 @@ package s3db
 // the table only on success (an error leaves the registry unchanged).
 //@ func New
 //@   requires imp(inMemoryS3 != nil, inMemoryS3.Client != nil)
-//@   modifies contents(tables), puts, deletes, deleteFailures, lists, lastPutPrefix, lastPutName, lastPutOK, inMemoryS3, inMemoryBucket
+//@   modifies contents(tables), puts, deletes, deleteFailures, lists, listNext, listTruncated, listedKeys, lastPutPrefix, lastPutName, lastPutOK, inMemoryS3, inMemoryBucket
 //@   ensures readonly-no-write: imp(err == nil && result0.S3Options.ReadOnly, puts == old(puts) && deletes == old(deletes))
 //@   ensures registry-on-error: forall k string :: imp(err != nil, has(tables, k) == old(has(tables, k)) && tables[k] == old(tables[k]))
 //@   ensures registered: imp(err == nil, result0 != nil && fresh(result0) && result0.Name == old(args[0]) && has(tables, old(args[0])) && tables[old(args[0])] == result0 && !old(has(tables, args[0])))
